@@ -32,7 +32,7 @@ def graph_replay(sim_bin, work, tag, constants, walks, seed, tlc_workers=4, walk
     wd = _prep(work, tag)
     cfg = "inst-%s.cfg" % tag
     with open(os.path.join(wd, cfg), "w") as f:
-        f.write("SPECIFICATION Spec\nCONSTANTS\n  MaxTerm = %d\n  MaxBatch = 2\n  Alias = FALSE\n  Families <- %s\n"
+        f.write("SPECIFICATION Spec\nCONSTANTS\n  MaxTerm = %d\n  MaxBatch = 2\n  WithSnap = TRUE\n  Alias = FALSE\n  Families <- %s\n"
                 "INVARIANTS TypeOK NoPanic CommittedIsLeaders AppliedIsLeaders AckIsDurable AckedNotLost Quiescent\n"
                 "PROPERTIES ReadyImmutable\nVIEW View\nACTION_CONSTRAINT Emit\nCHECK_DEADLOCK FALSE\n" % (constants["MaxTerm"], constants["Families"]))
     t0 = time.time()
@@ -100,7 +100,7 @@ def model_only(work, tag, constants, workers=8, timeout=1500, expect_violation=F
     wd = _prep(work, tag)
     cfg = "inst-%s.cfg" % tag
     with open(os.path.join(wd, cfg), "w") as f:
-        f.write("SPECIFICATION Spec\nCONSTANTS\n  MaxTerm = %d\n  MaxBatch = 2\n  Alias = %s\n  Families <- %s\n"
+        f.write("SPECIFICATION Spec\nCONSTANTS\n  MaxTerm = %d\n  MaxBatch = 2\n  WithSnap = TRUE\n  Alias = %s\n  Families <- %s\n"
                 "INVARIANTS TypeOK NoPanic CommittedIsLeaders AppliedIsLeaders AckIsDurable AckedNotLost Quiescent\n%s"
                 "VIEW View\nCHECK_DEADLOCK FALSE\n" % (constants["MaxTerm"], "TRUE" if constants.get("Alias") else "FALSE", constants["Families"],
                                                        "" if constants.get("NoProps") else "PROPERTIES ReadyImmutable\n"))
@@ -136,18 +136,18 @@ def run(sim_bin, work, tier, seed, pool):
     quick = tier == "quick"
     jobs = []
     if quick:
-        jobs.append(pool.submit(graph_replay, sim_bin, work, "two", {"MaxTerm": 2, "Families": "TwoLeaders"}, 3000, seed, 4, 6))
+        jobs.append(pool.submit(graph_replay, sim_bin, work, "two", {"MaxTerm": 2, "Families": "QuickTwo"}, 3000, seed, 4, 6))
     else:
         for k in (1, 2, 3, 4):
-            jobs.append(pool.submit(graph_replay, sim_bin, work, "three%d" % k, {"MaxTerm": 3, "Families": "Only%d" % k}, 20000, seed * 10 + k, 3, 4, 3000))
+            jobs.append(pool.submit(graph_replay, sim_bin, work, "three%d" % k, {"MaxTerm": 3, "Families": "Only%d" % k}, 20000, seed * 10 + k, 3, 4, 3300))
         jobs.append(pool.submit(graph_replay, sim_bin, work, "two", {"MaxTerm": 2, "Families": "TwoLeaders"}, 20000, seed, 3, 4))
     mo = []
     if not quick:
         mo.append(pool.submit(model_only, work, "all3", {"MaxTerm": 3, "Families": "AllFamilies3"}, 8, 2400))
     # self-test: the model with the defect "the outstanding Ready reads the array truncateAndAppend writes" must break the
     # clauses (vacuity guard for the invariants; the binding's own guard is seeded/C15-r5)
-    st1 = pool.submit(model_only, work, "alias", {"MaxTerm": 2, "Families": "TwoLeaders", "Alias": True}, 2, 600, True)
-    st2 = pool.submit(model_only, work, "alias-inv", {"MaxTerm": 2, "Families": "TwoLeaders", "Alias": True, "NoProps": True}, 2, 600, True)
+    st1 = pool.submit(model_only, work, "alias", {"MaxTerm": 2, "Families": "QuickTwo", "Alias": True}, 2, 600, True)
+    st2 = pool.submit(model_only, work, "alias-inv", {"MaxTerm": 2, "Families": "QuickTwo", "Alias": True, "NoProps": True}, 2, 600, True)
 
     def collect():
         res = [j.result() for j in jobs]
@@ -160,7 +160,7 @@ def run(sim_bin, work, tier, seed, pool):
             for k, v in r["summary"]["branches"].items():
                 br[k] = br.get(k, 0) + v
         cov = {
-            "spec": "ReadyWindow.tla (one follower: unstable over storage, Ready / save / Advance as separate steps, appends and heartbeats of successive leaders in any order)",
+            "spec": "ReadyWindow.tla (one follower: unstable over storage, Ready / save / Advance as separate steps; appends, heartbeats and snapshots of successive leaders in any order)",
             "instances": [{"instance": r["tag"], "states": r["tlc"]["distinct"], "transitions": r["tlc"]["generated"],
                            "transitions_replayed_on_real_rawnode": r["summary"]["replays"] - r["summary"]["walks"],
                            "random_walks": r["summary"]["walks"], "real_steps": r["summary"]["real_steps"], "wall_s": round(r["wall"], 1)} for r in res],
